@@ -223,11 +223,14 @@ def churn_history(r, heavy=False):
     them, hardly any pops to clear them away - re-prioritising schedulers)."""
     ntasks = r.choice([5, 12, 40, 60])
     ops = []
-    for _ in range(r.randint(400, 2500) if not heavy else r.randint(5000, 12000)):
+    for _ in range(r.randint(400, 2500) if not heavy else r.randint(7000, 14000)):
         x = r.random()
         t = r.randrange(ntasks)
-        if heavy and x >= 0.9:
-            x = 0.5 if r.random() < 0.9 else x      # pops and peeks are rare
+        if heavy == 'quiet':
+            # pops and peeks are very rare: removed entries pile up by the thousands
+            x = 0.5 if x < 0.8 else 0.75 if x < 0.97 else 0.85 if x < 0.985 else 0.95
+        elif heavy and x >= 0.9:
+            x = 0.5 if r.random() < 0.9 else x      # pops and peeks are rare (one operation in ten)
         if x < 0.68:
             ops.append(['add', t, r.choice(PRIOS)])
         elif x < 0.8:
@@ -343,7 +346,7 @@ def run(ctx):
     explore(ctx, Check(), n, 'pq')
     explore(ctx, BListCheck(), n, 'blist')
     for j in range({'quick': 7, 'thorough': 150}[ctx.tier]):
-        h = churn_history(ctx.rng('churn', j), heavy=(j % 7 == 6))
+        h = churn_history(ctx.rng('churn', j), heavy=(True if j % 7 == 6 else 'quiet' if j % 7 == 5 else False))
         ctx.stats.evaluations += 1
         f = Check().run(h, ctx.stats)
         ctx.stats.count('churn_histories')
